@@ -71,7 +71,8 @@ func ValidateInputDataDimUnity(data any) (err error) {
 				return
 			}
 
-			if len(sub) != dim {
+			// siblings must agree at every depth, not only in their outer length
+			if len(sub) != dim || len(sub[0]) != len(v[0][0]) {
 				return dimUnityErr
 			}
 		}
@@ -88,7 +89,8 @@ func ValidateInputDataDimUnity(data any) (err error) {
 				return
 			}
 
-			if len(sub) != dim {
+			// siblings must agree at every depth, not only in their outer length
+			if len(sub) != dim || len(sub[0]) != len(v[0][0]) || len(sub[0][0]) != len(v[0][0][0]) {
 				return dimUnityErr
 			}
 		}
